@@ -217,7 +217,9 @@ def vc_poly_add(H):
             ctx.oblige('post (other == 0): returns self unchanged', B.n.t == 0)
             return r
         ok = isinstance(r, tuple) and r[0] == 'Polynomial' and r[1] is st.get('res')
-        ctx.oblige('post: returns Polynomial(res)', bool(ok))
+        if not ok:
+            raise OutOfSubset('Polynomial.__add__: the result is not Polynomial(<the merged list>) (contract does not apply)')
+        ctx.oblige('post: returns Polynomial(res)', True)
         if ok:
             res = r[1]
             ctx.oblige('post: Den(result) == Den(self) + Den(other)', res.den == A.P(A.n.t) + B.P(B.n.t))
@@ -752,7 +754,9 @@ def vc_poly_mul(H):
             ctx.oblige('post: a zero operand gives the zero polynomial', z3.Or(A.n.t == 0, B.n.t == 0))
             return r
         ok = isinstance(r, PolyVal) and 'n' in st
-        ctx.oblige('post: returns the accumulated polynomial', bool(ok))
+        if not ok:
+            raise OutOfSubset('Polynomial.__mul__: the result is not the polynomial accumulated by the two loops (contract does not apply)')
+        ctx.oblige('post: returns the accumulated polynomial', True)
         if ok:
             ctx.oblige('post: Den(result) == sum over all pairs of Den(self[i]) * Den(other[j])  (== Den(self) * Den(other) by distributivity)',
                        r.den == Fold(st['n'].t))
